@@ -169,7 +169,11 @@ func (env *Env) tr(e Expr) (TV, error) {
 			}
 			hi = v.t
 		}
-		return TV{t: app("mkslice", app("sref", s.t), app("+", app("soff", s.t), lo), app("-", hi, lo), app("-", app("scap", s.t), lo)), ty: s.ty}, nil
+		off := app("at", app("soff", s.t), lo)
+		if lo == "0" {
+			off = app("soff", s.t)
+		}
+		return TV{t: app("mkslice", app("sref", s.t), off, app("-", hi, lo), app("-", app("scap", s.t), lo)), ty: s.ty}, nil
 	case *ECall:
 		return env.callExpr(x)
 	case *EIs:
@@ -539,6 +543,15 @@ func (env *Env) callExpr(x *ECall) (TV, error) {
 			t = app("sref", t)
 		}
 		return TV{t: and(app("<=", "0", t), app("<", t, env.mem.get(nextComp))), ty: tBool}, nil
+	case "deref":
+		if err := evalArgs(); err != nil {
+			return TV{}, err
+		}
+		p, ok := args[0].ty.Underlying().(*types.Pointer)
+		if !ok {
+			return TV{}, errf("deref of non-pointer %s", args[0].ty)
+		}
+		return TV{t: app("select", env.mem.get(enc.cellComp(p.Elem())), args[0].t), ty: p.Elem()}, nil
 	case "tagof":
 		if err := evalArgs(); err != nil {
 			return TV{}, err
